@@ -170,7 +170,7 @@ func cmdCheck(args []string) {
 	}
 	t0 := time.Now()
 	p := mustLoad()
-	findings, err := loadFindings("/verif/KNOWN_FINDINGS.txt")
+	findings, err := loadFindings(home() + "/KNOWN_FINDINGS.txt")
 	if err != nil {
 		fmt.Fprintln(os.Stderr, "govc: engine error:", err)
 		os.Exit(2)
